@@ -4,6 +4,25 @@ _NOTE = ('Trusted: CPython ast, mypy-inferred receiver types (callee resolution)
          'modules. Decides only the structural clauses named; runtime values, timing and histories are not decided.')
 
 CLAIMS = {
+    'C04': {
+        'text': 'The two announce indexes of the outgoing RIB stay coherent (the previous occupant of a route index is removed '
+                'from its own attribute group, keyed through _new_nlri); every queueing path reaches the matching cache '
+                'update; updates() emits refresh < withdraw < announce; every queue is detached before the first yield and '
+                'never touched through self across a suspension; in_cache compares attributes and next hop; who writes '
+                'the tables (thorough). One known finding (F3) is listed. Not decided: convergence over all histories.',
+        'note': _NOTE,
+        'technique': 'alias-aware def-use rules, CFG reachability/dominance between yield groups, must-pass-through on queueing paths',
+    },
+    'C07': {
+        'text': 'Each negotiated option is set exactly under (sent AND received) of its own capability code; families/nexthop are '
+                'members of both lists; hold time = min; ADD-PATH send/receive formulas with SEND=2/RECEIVE=1 and the '
+                'IN/OUT mapping; both AS numbers get the AS_TRANS fix-up from their own OPEN; refusal subcodes per guard; '
+                'pack_capabilities and Capabilities.unpack describe the same standard and RFC 9072 layouts; each capability '
+                'is advertised under its own configuration flag. Not decided: equality with an independent computation for '
+                'arbitrary OPEN pairs.',
+        'note': _NOTE,
+        'technique': 'guard/term extraction into (side, capability) sets compared with an RFC oracle table, def-use, constant folding, writer/reader layout comparison',
+    },
     'C03': {
         'text': 'Structural clauses decided from the source on every run: no call-graph cycle carrying peer data among the '
                 'functions reachable from the message decoders (registry dispatch recognised), every `while <buffer>` '
